@@ -23,8 +23,14 @@ Sent == P.sent
 Carried(ln) == ln \in DOMAIN Sent /\ Sent[ln] # <<>>
 SentSet(ln) == {Sent[ln][i] : i \in 1..Len(Sent[ln])}
 \* C18: every pushed name is carried with the value of the most recently pushed dictionary defining it
+\* (Host: the connection adds a Host field of its own next to a pushed one - of the catalogue's values only the effective one)
+CatalogueValues(ln) == UNION {ValuesIn(d, ln) : d \in DictIds}
 MostRecentWins == (l > 1 /\ P.k \in {"call", "notify", "batch"}) =>
-                     \A ln \in Pushed(stack) \ ReadOnly : Carried(ln) /\ SentSet(ln) \subseteq Effective(stack)[ln]
+                     \A ln \in Pushed(stack) \ ReadOnly :
+                        /\ Carried(ln)
+                        /\ IF ln = "host" THEN /\ (SentSet(ln) \cap CatalogueValues(ln)) \subseteq Effective(stack)[ln]
+                                                /\ (SentSet(ln) \cap Effective(stack)[ln]) # {}
+                           ELSE SentSet(ln) \subseteq Effective(stack)[ln]
 ProtectedUntouched == (l > 1 /\ P.k \in {"call", "notify", "batch"}) =>
                          /\ Carried("content-length") /\ SentSet("content-length") = {P.bodylen}
                          /\ Carried("content-type") /\ SentSet("content-type") = {P.ctype}
